@@ -23,6 +23,8 @@ func init() {
 		casPolarity(c, "C06.2b")
 		c06Revision(c)
 		c06OptionHandover(c)
+		wtCandidateRevision(c, "C06.11")
+		initialPacketBuffered(c, "C06.3b")
 		timerNilSafe(c, "C07.4") // heartbeat mode keyed on the session revision (arming table)
 	})
 }
